@@ -25,7 +25,7 @@ pub fn check() -> Check {
                (errors dropped; with bytes F8-FF present: the reference output must be a subsequence of the actual output), and both sentinels must be accepted. \
                G2: random byte streams over 0..=255 except DEL (well-formed characters, malformed fragments - overlong, surrogate, > U+10FFFF, truncated, stray continuation, F8-FF - and keys) through a whole Cli with small buffers, \
                Cli::write and set_prompt interleaved: every handler string and option char, the editor bytes and every history entry after every byte, and the entire sink stream must be well-formed UTF-8. \
-               Non-trivial = the sequence contains at least one ill-formed subsequence (G2: followed later by Enter, recall or a redraw); distinct by byte content.",
+               Non-trivial = the sequence contains at least one ill-formed subsequence (G2: followed later by Enter, recall or a redraw); distinct by byte content. G1u: every concatenation of up to 3 (thorough 4) of 36 boundary units - the first and last character of every lead octet's range, the ill-formed sequences next to them, sequences cut short, stray continuation octets, F8/FF, a printable character - decoded and compared like G1 (what the decoder remembers of one character may not excuse the next sequence).",
         assumptions: &[
             "DEL (0x7F) is never generated: its treatment is left open",
             "equivalence of 'lead byte restarts, continuation bytes cannot start a character' decoders with std's maximal-subpart decoding, for the emitted characters, is argued in DESIGN 6/C02; bytes F8-FF are only required not to lose reference characters",
